@@ -39,8 +39,12 @@ def schedules(tier, seed):
         configs += [([[1], [2], [3]], 1, "s"), ([[2], [4]], 0, "l"), ([[1, 2], [3], [4]], 2, "m")]
     for sessions, pre, profile in configs:
         for reader in ("gpdir", "query", "query-lowmem"):
-            wsteps = 46 * sum(1 for _ in sessions) + 8 * sum(len(s) - 1 for s in sessions)
-            step = 1 if (tier == "thorough" or reader == "gpdir") else 2
+            # upper bound of the number of writer gates (an insertion point beyond the last gate runs the reader
+            # after the last write-out: harmless); the bound must include the gates of the LAST session's commit
+            wsteps = 48 * sum(1 for _ in sessions) + 10 * sum(len(s) - 1 for s in sessions) + 6
+            # (the window between two particular writer gates - e.g. metadata renamed, directory not yet -
+            # is a single insertion point: no thinning for the readers that go through the directory walk)
+            step = 1 if (tier == "thorough" or reader in ("gpdir", "query")) else 2
             for k in range(0, wsteps, step):
                 x += 1
                 out.append({"x": x, "sessions": sessions, "pre": pre, "reader": reader, "profile": profile,
